@@ -2,6 +2,7 @@ package checks
 
 import (
 	"net"
+	"sync/atomic"
 	"fmt"
 	"os"
 	"testing"
@@ -29,6 +30,10 @@ func TestMain(m *testing.M) {
 
 // finish writes the evidence and fails the test on anything but "held".
 func finish(t *testing.T, e *vlib.Evidence) {
+	if n := atomic.LoadInt64(&vlib.WatchdogFired); n > 0 {
+		e.Count("harness-watchdog-expiries", n)
+		fmt.Printf("NOTE harness watchdog (%s per call) fired %d time(s) in this run\n", vlib.CallTimeout, n)
+	}
 	switch e.Finish() {
 	case vlib.StatusViolated:
 		t.Fail()
